@@ -4,4 +4,5 @@ CONSTANTS
   CProf = {}
   LoProf = {}
   CellReq = {}
+  MoveMaxDim = 0
 CHECK_DEADLOCK FALSE
